@@ -272,6 +272,8 @@ pub struct World<A: App> {
     /// Drop mask over emission indices `mask_base..mask_base+64`
     pub drop_mask: u64,
     pub mask_base: u64,
+    /// Extra one-way delay for every datagram from or to an address (a slower path)
+    pub addr_latency: Vec<(SocketAddr, Duration)>,
     /// Drop mask over the emissions of ONE node: (node, first per-node emission index, mask)
     pub node_mask: Option<(usize, u64, u64)>,
     /// Datagrams emitted so far, per node
@@ -332,6 +334,7 @@ impl<A: App> World<A> {
             fates: BTreeMap::new(),
             drop_mask: 0,
             mask_base: 0,
+            addr_latency: vec![],
             node_mask: None,
             emitted_by: vec![],
             src_rewrite: Vec::new(),
@@ -488,8 +491,9 @@ impl<A: App> World<A> {
             }
             let seq = w.seq;
             w.seq += 1;
+            let slow: Duration = w.addr_latency.iter().filter(|(a, _)| *a == src || *a == dst).map(|(_, d)| *d).sum();
             w.net.push(Flight {
-                at: w.t + w.latency + extra,
+                at: w.t + w.latency + extra + slow,
                 seq,
                 idx,
                 src,
